@@ -167,8 +167,11 @@ Fixpoint run_evs (id : Z) (s : lstate) (m : mon) (i : Z) (mism : bool) (evs : li
             | Some (x, h) => opt_eqb Z.eqb (zget (m_thd m) h) (Some x) && (h <? zlen bl)
             | None => false
             end in
+          (* a round whose block fetch failed is no verdict: no progress is
+             demanded of it (the safety checks apply all the same) *)
+          let avail := List.forallb (fun r : renvrow => let '(_, _, hok, bok, _, _) := r in hok && bok) envr in
           let ok_progress :=
-            negb strict || negb (ocls =? 1) || List.existsb (fun q => mem q (m_conn m)) obans in
+            negb strict || negb avail || negb (ocls =? 1) || List.existsb (fun q => mem q (m_conn m)) obans in
           if ok_honest && ok_value && ok_progress then [] else [(id, 2, i, l_flag s')]
         else [] in
       let m' := {| m_tfh := m_tfh m; m_thd := m_thd m;
